@@ -787,14 +787,50 @@ def P11(m, R):
         b, _ = bind_call(pc[0], pgs)
         ae = b.get(pgs.params[1])
         problems = []
-        if ae is not None and const_val(ae, 'x') is not False:
-            problems.append('add_erroneous=%s: unknown / incomplete codes would be kept as settings' % norm(ae))
-        if ae is None and const_val(pgs.defaults.get(pgs.params[1]), 'x') is not False:
-            problems.append('add_erroneous left to a default that is not False')
+        from .P_more2 import erroneous_polarity
+        pol = erroneous_polarity(m)
+        drop = False if pol is None else (not pol)       # the value of the flag under which unknown / incomplete codes are dropped
+        if ae is not None and const_val(ae, 'x') is not drop:
+            problems.append('%s=%s: unknown / incomplete codes would be kept as settings' % (pgs.params[1], norm(ae)))
+        if ae is None and const_val(pgs.defaults.get(pgs.params[1]), 'x') is not drop:
+            problems.append('%s left to a default that is not %s' % (pgs.params[1], drop))
         seq = b.get(pgs.params[0])
         if seq is None or not re.match(r'^\w+\.\w+$', norm(seq)):
             problems.append('parses %s' % norm(seq))
         R.check(not problems, f, pc[0], 'parse_graphic_sequence(<sequence parameters>, add_erroneous=False)', '; '.join(problems), construct=cons)
+        # every sequence the tokenizer recorded is parsed on its own: the parsed object is the variable of a loop over the list recorded for
+        # the position, and that list is the tokenizer's (parameters of two sequences do not combine: ESC[m is a reset, "ESC[38;5m" ends there)
+        cons = 'one parse per sequence'
+        if seq is not None and isinstance(seq, ast.Attribute) and isinstance(seq.value, ast.Name):
+            v_ = seq.value.id
+            inner = next((p_ for p_ in _parents(pc[0]) if isinstance(p_, ast.For) and isinstance(p_.target, ast.Name) and p_.target.id == v_), None)
+            if inner is None:
+                R.undecided(f, pc[0], 'the loop that binds %s was not found' % v_, construct=cons)
+            elif isinstance(inner.iter, ast.Name):
+                L_ = inner.iter.id
+                rebound = [n_ for n_ in f.walk() if isinstance(n_, (ast.Assign, ast.AugAssign)) and any(
+                    isinstance(t_, ast.Name) and t_.id == L_ for t_ in (n_.targets if isinstance(n_, ast.Assign) else [n_.target]))]
+                outer = [n_ for n_ in f.walk() if isinstance(n_, ast.For) and L_ in names_in(n_.target) and call_name(n_.iter) == 'items']
+                if rebound:
+                    def has_join(n_):
+                        return any(isinstance(x_, ast.Call) and call_name(x_) == 'join' for x_ in ast.walk(n_))
+                    feeds = {nm_ for n_ in rebound for nm_ in names_in(n_.value)}
+                    joined = [n_ for n_ in rebound if has_join(n_)] + [n_ for n_ in f.walk() if isinstance(n_, ast.Assign) and isinstance(n_.targets[0], ast.Name)
+                                                                      and n_.targets[0].id in feeds and has_join(n_) and L_ in names_in(n_.value)]
+                    if joined:
+                        R.viol(f, joined[0], 'the list of sequences recorded for a position is replaced by %s: the parameters of several sequences are joined into one sequence, '
+                                             'but they do not combine -- an empty sequence (ESC[m, a reset) becomes an empty field that the parser skips, and an incomplete '
+                                             '"38;5" swallows the codes of the next sequence' % short(joined[0].value), construct=cons)
+                    else:
+                        R.undecided(f, rebound[0], 'the list of sequences %s is rebound (%s) before it is parsed' % (L_, short(rebound[0])), construct=cons)
+                elif outer:
+                    R.ok(f, inner, 'the parsed sequences are the elements of the list the tokenizer recorded for the position, one parse each', construct=cons)
+                else:
+                    R.undecided(f, inner, 'where %s comes from was not recognised' % L_, construct=cons)
+            else:
+                R.ok(f, inner, 'the parsed sequences are the elements of %s, one parse each' % short(inner.iter), construct=cons)
+        else:
+            R.undecided(f, pc[0], 'parsed object %s not recognised' % (norm(seq) if seq is not None else None), construct=cons)
 
 
 def _status_valuation(K, OLD, NEW, V, status):
